@@ -3,6 +3,7 @@ package props
 import (
 	"fmt"
 	"go/constant"
+	"go/token"
 	"go/types"
 	"os"
 
@@ -497,11 +498,6 @@ func (c *Ctx) headerTypeCheck() {
 		if !ok || (bo.Op.String() != "!=" && bo.Op.String() != "==") {
 			continue
 		}
-		cx, ok1 := bo.X.(*ssa.Call)
-		cy, ok2 := bo.Y.(*ssa.Call)
-		if !ok1 || !ok2 || !ir.IsMethod(cx.Common(), pkgMessage, "header", "Type") || !ir.IsMethod(cy.Common(), pkgMessage, "header", "Type") {
-			continue
-		}
 		// one of them is taken before the store of the received first byte, the other after
 		var store *ssa.Store
 		for _, b2 := range fn.Blocks {
@@ -516,7 +512,48 @@ func (c *Ctx) headerTypeCheck() {
 		if store == nil {
 			continue
 		}
-		before := ir.Before(cx, store) != ir.Before(cy, store)
+		// where a type value comes from: "preset" (the header's own type before the received byte is installed),
+		// "received" (the header's type afterwards, or the high nibble of the input byte itself), "" otherwise
+		origin := func(v ssa.Value) string {
+			if call, ok := v.(*ssa.Call); ok && ir.IsMethod(call.Common(), pkgMessage, "header", "Type") {
+				if ir.Before(call, store) {
+					return "preset"
+				}
+				return "received"
+			}
+			if cv, ok := v.(*ssa.Convert); ok {
+				v = cv.X
+			}
+			if ct, ok := v.(*ssa.ChangeType); ok {
+				v = ct.X
+			}
+			sh, ok := v.(*ssa.BinOp)
+			if !ok || sh.Op != token.SHR {
+				return ""
+			}
+			if k, ok := sh.Y.(*ssa.Const); !ok || k.Value == nil || k.Value.ExactString() != "4" {
+				return ""
+			}
+			u, ok := sh.X.(*ssa.UnOp)
+			if !ok || u.Op != token.MUL {
+				return ""
+			}
+			if p := ir.PathOf(u.X); len(p.Fields) >= 2 && p.Fields[len(p.Fields)-2] == "mtypeflags" {
+				if ir.Before(u, store) {
+					return "preset"
+				}
+				return "received"
+			}
+			if isFlagsAddr(u.X) {
+				return "received" // src[i], the byte the field becomes a view of
+			}
+			return ""
+		}
+		ox, oy := origin(bo.X), origin(bo.Y)
+		if ox == "" || oy == "" {
+			continue
+		}
+		before := ox != oy
 		neEdge := 0
 		if bo.Op.String() == "==" {
 			neEdge = 1
